@@ -61,7 +61,10 @@ pub fn info() -> CheckInfo {
 // ---------------------------------------------------------------------------
 // Plans
 
-pub const ADDRS: [&str; 3] = ["00401000", "00402000", "UNKNOWN"];
+/// Reporting addresses. Distinct strings are distinct addresses of origin for the collector: besides plain hex addresses
+/// the address Ghidra prints for the external space, the `UNKNOWN` of artificial terms and a hex string of another
+/// width that is numerically equal to the first entry.
+pub const ADDRS: [&str; 5] = ["00401000", "00402000", "UNKNOWN", "EXTERNAL:00000010", "401000"];
 
 #[derive(Clone, Debug, PartialEq, Eq, Serialize, Deserialize)]
 pub enum Pause {
@@ -144,8 +147,8 @@ fn random_msg(rng: &mut Rng, p: &Params, profile: u64) -> MsgPlan {
     let r = rng.below(12);
     let kind = match (profile, r) {
         (1, 0..=8) | (0, 0..=4) | (2, 0..=1) => MKind::General,
-        (_, x) if x % 2 == 0 => MKind::LogAt(rng.usize_below(3)),
-        _ => MKind::Cwe(rng.usize_below(3), rng.below(3) as u8),
+        (_, x) if x % 2 == 0 => MKind::LogAt(rng.usize_below(ADDRS.len())),
+        _ => MKind::Cwe(rng.usize_below(ADDRS.len()), rng.below(3) as u8),
     };
     MsgPlan { kind, pause: random_pause(rng, p), variant: rng.below(4) as u8 }
 }
@@ -195,8 +198,8 @@ pub fn make_msg(t: usize, c: usize, mp: &MsgPlan) -> LogThreadMsg {
         MKind::Cwe(a, extra) => {
             let addresses: Vec<String> = match extra {
                 0 => vec![ADDRS[*a].to_string()],
-                1 => vec![ADDRS[*a].to_string(), ADDRS[(*a + 1) % 3].to_string()],
-                _ => vec![ADDRS[*a].to_string(), "0040ffff".to_string(), ADDRS[(*a + 2) % 3].to_string()],
+                1 => vec![ADDRS[*a].to_string(), ADDRS[(*a + 1) % ADDRS.len()].to_string()],
+                _ => vec![ADDRS[*a].to_string(), "0040ffff".to_string(), ADDRS[(*a + 2) % ADDRS.len()].to_string()],
             };
             let name = ["CWE476", "CWE119", "CWE416", "CWE476"][mp.variant as usize % 4];
             LogThreadMsg::Cwe(CweWarning::new(name, "0.1", text).addresses(addresses).tids(vec![format!("instr_{}_{}", ADDRS[*a], mp.variant)]))
